@@ -20,7 +20,14 @@ func isPBFile(ex *Exec, fn *ssa.Function) bool {
 		return false
 	}
 	f := ex.fset.Position(fn.Pos()).Filename
-	return strings.HasSuffix(f, ".pb.go") || strings.HasSuffix(f, ".pb.gw.go")
+	if strings.HasSuffix(f, ".pb.go") || strings.HasSuffix(f, ".pb.gw.go") {
+		// generated field getters are ordinary code and are inlined
+		if strings.HasPrefix(fn.Name(), "Get") && fn.Signature.Params().Len() == 0 && fn.Blocks != nil {
+			return false
+		}
+		return true
+	}
+	return false
 }
 
 func calleeName(c *ssa.CallCommon) string {
@@ -153,7 +160,7 @@ func (ex *Exec) externalEffects(name string) effectSummary {
 			return effectSummary{iter: true}
 		}
 		return effectSummary{}
-	case strings.HasSuffix(name, ".MustUnmarshal") || strings.HasSuffix(name, ".Unmarshal") || strings.HasSuffix(name, ".UnmarshalJSON") || strings.HasSuffix(name, ".MustUnmarshalJSON") || strings.HasSuffix(name, "UnpackAny") || strings.HasSuffix(name, ".UnmarshalInterface"):
+	case strings.HasSuffix(name, ".MustUnmarshal") || strings.HasSuffix(name, ".Unmarshal") || strings.HasSuffix(name, ".UnmarshalJSON") || strings.HasSuffix(name, ".MustUnmarshalJSON") || strings.HasSuffix(name, "UnpackAny") || strings.HasSuffix(name, ".UnmarshalInterface") || strings.HasSuffix(name, ".UnmarshalBinary"):
 		return effectSummary{ptrArgs: true}
 	case strings.HasSuffix(name, "encoding/binary.bigEndian).PutUint64") || strings.HasSuffix(name, "encoding/binary.bigEndian).PutUint32"):
 		return effectSummary{ptrArgs: true}
@@ -273,6 +280,43 @@ func (ex *Exec) lookupContract(fn *ssa.Function) *Contract {
 	return nil
 }
 
+// contractAtCallSite: callers see only the contract of functions that contain loops (transitively) or are
+// declared `modular`; loop-free leaf functions are inlined (their body is their strongest contract).
+func (ex *Exec) contractAtCallSite(fn *ssa.Function, ct *Contract) bool {
+	if !ex.useContracts || ct.Inline || fn == ex.topFn || ex.noContractFor[ct.Func] {
+		return false
+	}
+	return ct.Modular || ex.hasLoop(fn, map[*ssa.Function]bool{})
+}
+
+func (ex *Exec) hasLoop(fn *ssa.Function, seen map[*ssa.Function]bool) bool {
+	if seen[fn] || fn.Blocks == nil || isPBFile(ex, fn) {
+		return false
+	}
+	seen[fn] = true
+	if fn.Name() == "AppendMany" {
+		return false // variadic concatenation: always unrolled concretely
+	}
+	if len(ex.loops(fn).list) > 0 {
+		return true
+	}
+	for _, b := range fn.Blocks {
+		for _, in := range b.Instrs {
+			if c, ok := in.(ssa.CallInstruction); ok {
+				if callee, ok := c.Common().Value.(*ssa.Function); ok && ex.hasLoop(callee, seen) {
+					return true
+				}
+				if mc, ok := c.Common().Value.(*ssa.MakeClosure); ok {
+					if ex.hasLoop(mc.Fn.(*ssa.Function), seen) {
+						return true
+					}
+				}
+			}
+		}
+	}
+	return false
+}
+
 func (ex *Exec) callFunction(fr *Frame, fn *ssa.Function, args []Val, bindings []Val, st *State, call *ssa.Call) []Result {
 	// synthetic wrappers / bound methods
 	if fn.Blocks == nil || isPBFile(ex, fn) {
@@ -288,7 +332,7 @@ func (ex *Exec) callFunction(fr *Frame, fn *ssa.Function, args []Val, bindings [
 	if r, ok := ex.repoBuiltin(fr, fn, args, st, call); ok {
 		return r
 	}
-	if ct := ex.lookupContract(fn); ct != nil && ex.useContracts && !ct.Inline && fn != ex.topFn && !ex.noContractFor[ct.Func] {
+	if ct := ex.lookupContract(fn); ct != nil && ex.contractAtCallSite(fn, ct) {
 		return ex.applyContract(fr, fn, ct, args, st, call)
 	}
 	if len(ex.callStack) > ex.inlineMax {
@@ -641,7 +685,7 @@ func (ex *Exec) appendOp(st *State, a, b Val, t types.Type) Val {
 		return &SliceV{Obj: o, Off: IntLit(0), Len: Add(sa.Len, sb.Len), Elem: et}
 	}
 	arrB := ex.shiftedArr(st, sb)
-	res := Fresh("appended", ArraySort(SInt, es))
+	res := Det("appended", ArraySort(SInt, es), arrA, sa.Len, arrB, sb.Len)
 	i := BVar("i!ap", SInt)
 	st.AssumeDef(Forall([]*Term{i}, Implies(And(Le(IntLit(0), i), Lt(i, sa.Len)), Eq(Select(res, i), Select(arrA, i))), []*Term{Select(res, i)}))
 	st.AssumeDef(Forall([]*Term{i}, Implies(And(Le(IntLit(0), i), Lt(i, sb.Len)), Eq(Select(res, Add(sa.Len, i)), Select(arrB, i))), []*Term{Select(arrB, i)}))
@@ -667,7 +711,7 @@ func (ex *Exec) externalUF(name string, sig *types.Signature, x *Term, args []*T
 		rs := sortOf(sig.Results().At(i).Type())
 		n := base
 		if sig.Results().Len() > 1 {
-			n = fmt.Sprintf("%s#%d", base, i)
+			n = fmt.Sprintf("%s_r%d", base, i)
 		}
 		// arity/sort overloading: suffix with sorts when already declared differently
 		if d, ok := ufTable[n]; ok && !sameSorts(d.Args, ss) {
@@ -702,13 +746,24 @@ func sortsKey(ss []*Sort) string {
 func ufBaseName(name string) string {
 	// (pkg/path.Type).Method -> Type.Method ; pkg/path.Func -> path.Func
 	n := name
-	n = strings.TrimPrefix(n, "(")
-	n = strings.Replace(n, ")", "", 1)
+	if strings.HasPrefix(n, "(") {
+		// (pkg.Type).Method -> Type.Method
+		if j := strings.Index(n, ")"); j > 0 {
+			recv := strings.TrimPrefix(n[1:j], "*")
+			if k := strings.LastIndex(recv, "/"); k >= 0 {
+				recv = recv[k+1:]
+			}
+			if k := strings.Index(recv, "."); k >= 0 {
+				recv = recv[k+1:]
+			}
+			n = recv + n[j+1:]
+		}
+	}
 	n = strings.TrimPrefix(n, "*")
 	if j := strings.LastIndex(n, "/"); j >= 0 {
 		n = n[j+1:]
 	}
-	return strings.NewReplacer(" ", "", "*", "", "(", "", ")", "").Replace(n)
+	return strings.NewReplacer(" ", "", "*", "", "(", "", ")", "", ".", "_", "-", "_").Replace(n)
 }
 
 func unusedCall(_ token.Pos) {}
